@@ -266,6 +266,7 @@ func (m MapSchema[K, V]) Validate(data any) error {
 		}
 	}
 
+	serializedKeys := make(map[any]struct{}, v.Len())
 	for iter := v.MapRange(); iter.Next(); {
 		k := iter.Key()
 		if err := m.KeysValue.Validate(k.Interface()); err != nil {
@@ -274,6 +275,18 @@ func (m MapSchema[K, V]) Validate(data any) error {
 		if err := m.ValuesValue.Validate(iter.Value().Interface()); err != nil {
 			return ConstraintErrorAddPathSegment(err, fmt.Sprintf("[%v]", k))
 		}
+		// Two keys of a map keyed by an interface type (int64(1) and int32(1)) that denote the same key: Serialize and
+		// Unserialize refuse them, and so does Validate.
+		serializedKey, err := m.KeysValue.Serialize(k.Interface())
+		if err != nil {
+			return ConstraintErrorAddPathSegment(err, fmt.Sprintf("{%v}", k))
+		}
+		if _, duplicate := serializedKeys[serializedKey]; duplicate {
+			return ConstraintErrorAddPathSegment(&ConstraintError{
+				Message: fmt.Sprintf("Duplicate key %v after conversion", serializedKey),
+			}, fmt.Sprintf("{%v}", k))
+		}
+		serializedKeys[serializedKey] = struct{}{}
 	}
 	return nil
 }
